@@ -101,6 +101,15 @@ func dumpPrepared(script string, optimize bool) (*progDump, error) {
 	return d, nil
 }
 
+// evalfilterPrepared prepares the script without optimisation (nil on failure)
+func evalfilterPrepared(script string) *evalfilter.Eval {
+	e := evalfilter.New(script)
+	if err := e.Prepare([]byte{evalfilter.NoOptimize}); err != nil {
+		return nil
+	}
+	return e
+}
+
 // ---- an independent re-check in Go of what TLC reports -------------------------------
 var wideOps = map[int]bool{0: true, 1: true, 2: true, 3: true, 4: true, 5: true, 6: true, 7: true, 22: true, 23: true}
 
@@ -404,6 +413,33 @@ func sizeFamily(tier string) []string {
 func checkC18(c *Check) {
 	c.rule = "every accepted script of the corpora MC_Flow, MC_Opt, MC_Scope, MC_History (quick: every 8th distinct script; thorough: all, plus MC_Alias, MC_Cont, MC_Truth, MC_Expr) and a size family (integer literals and constant pools around the 8/16-bit boundaries, calls/arrays/hashes/literals whose operand low byte takes the value of every opcode as the last instruction of a function, bodies of 65.5k bytes in front of forward and backward jumps) is prepared optimised and unoptimised; the programs as the VM will run them (verif accessors) are explored by TLC on ALL control-flow paths (MC_Verify); every report is re-established by an independent decoder/abstract interpreter in Go before it counts; non-trivial = a prepared program with at least one jump or call; distinct = distinct (script, mode)"
 	c.assumptions = []string{"calls are taken to push one value (the statement's proviso)", "abstract stack heights saturate at 12", "the verif accessors return the byte slices the VM executes"}
+	// the model compiler (EFCompiler): well-formed on every enumerated program (TLC), and byte-for-byte
+	// what the real compiler emits (drift is reported, it is not a verdict)
+	drift, compared := 0, 0
+	var driftMu sync.Mutex
+	firstDrift := ""
+	runRows(c, "MC_Compile", stdCfg(c.Tier, "ModelWellFormed", "FoldsSafe", "OptimisedWellFormed"), func(row *Row) {
+		var mp modelProg
+		if err := json.Unmarshal(row.Raw, &mp); err != nil || !mp.OK {
+			return
+		}
+		src := (&renderer{elseIf: true}).program(mp.Prog)
+		why := compareCompile(&mp, src)
+		driftMu.Lock()
+		compared++
+		if why != "" {
+			drift++
+			if firstDrift == "" {
+				firstDrift = truncate(src, 200) + " :: " + truncate(why, 400)
+			}
+		}
+		driftMu.Unlock()
+	})
+	c.extra["model_compiler_programs_compared"] = compared
+	c.extra["model_compiler_drift"] = drift
+	if drift > 0 {
+		fmt.Printf("\nNOTE: EFCompiler and the real compiler emit different code for %d of %d programs (drift of the model, not a verdict), e.g. %s\n", drift, compared, firstDrift)
+	}
 	every := 8
 	mods := []string{"MC_Flow", "MC_Opt", "MC_Scope", "MC_History"}
 	if c.Tier == "thorough" {
